@@ -864,7 +864,8 @@ def ctl_swallow_report(ctx):
     from sa import paths as P
 
     def repl(n):
-        guard = ast.parse("if self.get_workflow_status() == statuses.CANCELED:\n    return None").body[0]
+        guard = ast.parse("if event.status in statuses.STARTING_STATUSES and "
+                          "self.get_workflow_status() == statuses.CANCELED:\n    return None").body[0]
         return [guard, n]
 
     return _edit_control(ctx, "swallow_report", COND, "WorkflowConductor.update_task_state",
@@ -975,3 +976,35 @@ def ctl_reuse_retry_entry(ctx):
 
     return _edit_control(ctx, "reuse_retry_entry", COND, "WorkflowConductor.add_task_state",
                          pred, repl, [SH.rule_P16], what="retry entry not evaluated for later records")
+
+
+def ctl_stale_retry_delay(ctx):
+    """the retry delay of an offer is kept in a local that survives into the next iteration."""
+    import ast
+    from sa import shape as SH
+
+    def pred(n):
+        return isinstance(n, ast.For) and any(
+            isinstance(x, ast.If) and ast.unparse(x.test).replace('"', "'") == "'retry' in staged_task"
+            for x in ast.walk(n))
+
+    def repl(n):
+        for x in ast.walk(n):
+            for fld in ("body", "orelse"):
+                lst = getattr(x, fld, None)
+                if not isinstance(lst, list):
+                    continue
+                for i, st in enumerate(lst):
+                    if isinstance(st, ast.If) and ast.unparse(st.test).replace(
+                            '"', "'") == "'retry' in staged_task":
+                        setter = ast.parse("if 'retry' in staged_task:\n"
+                                           "    retry_delay = staged_task['retry'].get('delay') or 0").body[0]
+                        user = ast.parse("if retry_delay is not None:\n"
+                                         "    next_task['delay'] = retry_delay").body[0]
+                        lst[i:i + 1] = [setter, user]
+                        init = ast.parse("retry_delay = None").body[0]
+                        return [init, n]
+        return n
+
+    return _edit_control(ctx, "stale_retry_delay", COND, "WorkflowConductor.get_next_tasks",
+                         pred, repl, [SH.rule_G7], what="retry delay carried over to the next offer")
